@@ -460,7 +460,10 @@ def gen_op(rng, model, enabled, uniq):
 
 
 PY_ONLY = ["box_delete", "bad_vec_sum", "bad_arg", "nomem"]
-NOT_PY = ["copy_item", "vec_inc", "vec_str_count", "cap_delete", "cap_scope"]
+# char_inout: the Python wrapper hands the str object's own UTF-8 buffer to the library, which
+# upper-cases it in place and thereby corrupts interned strings of the interpreter (a C03 defect;
+# it would make later *values* wrong, so the op is not generated for Python)
+NOT_PY = ["copy_item", "vec_inc", "vec_str_count", "cap_delete", "cap_scope", "char_inout"]
 
 
 C_ONLY = ["item_release", "cstr_ref", "cstr_lib", "cstr_owned", "cstr_in", "cstr_out", "cstr_inout"]
